@@ -837,3 +837,55 @@ func reservedPIDScenario(r *rand.Rand) []HOp {
 	}
 	return ops
 }
+
+// wrapPMTScenario: streams whose descriptor loops make the body of the program map section exactly 65536 bytes (or 65536 ± a few):
+// every descriptor (≤ 255 bytes) and every ES_info_length (≤ 1023) is legal on its own, the PMT as a whole is far too large for one
+// packet, and a 16 bit sum of its parts is 0 (or small). Every emission must be refused with nothing written.
+func wrapPMTScenario(r *rand.Rand) []HOp {
+	target := 65536 + []int{0, 0, 0, 1, -1, 9, 13, 183, 184}[r.IntN(9)]
+	var ops []HOp
+	left := target - 4
+	pid := uint16(0x100)
+	mkLoop := func(n int) []*astits.Descriptor { // descriptors filling exactly n bytes (n = 0 or n ≥ 2)
+		var ds []*astits.Descriptor
+		for n > 0 {
+			k := n
+			if k > 257 {
+				k = 257
+				if n-k == 1 {
+					k = 256
+				}
+			}
+			ds = append(ds, &astits.Descriptor{Tag: 0x80 + uint8(r.IntN(0x7e)), Length: uint8(k - 2), UserDefined: gen.Bytes(r, k-2)})
+			n -= k
+		}
+		return ds
+	}
+	for left > 0 {
+		loop := 900 + r.IntN(124)
+		if left-5-loop < 7 { // the last stream takes what is left
+			loop = left - 5
+			if loop > 1023 || loop == 1 || loop < 0 {
+				// cannot close exactly with this draw: give the remainder to two streams
+				loop = (left - 10) / 2
+				ops = append(ops, HOp{Kind: "add", PID: pid, ES: &astits.PMTElementaryStream{StreamType: astits.StreamTypePrivateData, ElementaryStreamDescriptors: mkLoop(loop)}, Slot: -1})
+				pid++
+				left -= 5 + loop
+				loop = left - 5
+			}
+		}
+		ops = append(ops, HOp{Kind: "add", PID: pid, ES: &astits.PMTElementaryStream{StreamType: astits.StreamTypeH264Video, ElementaryStreamDescriptors: mkLoop(loop)}, Slot: -1})
+		pid++
+		left -= 5 + loop
+	}
+	mk := func(p uint16) HOp {
+		return HOp{Kind: "data", PID: p, Data: &astits.MuxerData{PES: &astits.PESData{Header: &astits.PESHeader{StreamID: 0xE0, OptionalHeader: &astits.PESOptionalHeader{MarkerBits: 2}}, Data: gen.Bytes(r, 1+r.IntN(400))}}}
+	}
+	ops = append(ops, HOp{Kind: "pcr", PID: 0x100}, HOp{Kind: "tables"}, mk(0x100), mk(0x101), HOp{Kind: "tables"})
+	// back to a PMT that fits: everything but two streams removed
+	for p := uint16(0x102); p < pid; p++ {
+		ops = append(ops, HOp{Kind: "remove", PID: p})
+	}
+	ops = append(ops, HOp{Kind: "tables"}, mk(0x100), mk(0x101))
+	return ops
+}
